@@ -468,9 +468,9 @@ func runStdlib(x *exec) {
 		fnList = append(fnList, e)
 	}
 	sort.Strings(fnList)
-	c.Feature("functions-enumerated", int64(len(fnList)))
-	c.Feature("pool-size", int64(len(pool)))
 	if c.Batch == 0 {
+		c.Feature("functions-enumerated", int64(len(fnList)))
+		c.Feature("pool-size", int64(len(pool)))
 		c.Output("functions", strings.Join(fnList, " "))
 	}
 	P := len(pool)
@@ -482,7 +482,9 @@ func runStdlib(x *exec) {
 	if c.Tier == vp.Quick {
 		P2 = corePoolSize()
 	}
-	c.Feature("pool-size-for-exhaustive-pairs", int64(P2))
+	if c.Batch == 0 {
+		c.Feature("pool-size-for-exhaustive-pairs", int64(P2))
+	}
 	stride := 1
 	if x.variant != "plain" && c.Tier == vp.Quick {
 		stride = 10
@@ -510,7 +512,9 @@ func runStdlib(x *exec) {
 		}
 		c.Flush(false)
 	}
-	c.Feature("exhaustive-arity<=2-calls-total", int64(k))
+	if c.Batch == 0 {
+		c.Feature("exhaustive-arity<=2-calls-enumerated", int64(k))
+	}
 	// sampled arity 3-4
 	r := c.Rand("stdlib-sampled")
 	n := x.slice(c.Pick(100000, 2000000)) / c.NB
